@@ -174,6 +174,8 @@ pub fn invoke(db: &MonDb, n: &Node) -> (String, Vec<Node>, Option<Handle>, Optio
         }
         Node::SameA(k) => (format!("{:?}", a::same(db, *k)), one(n), None, None),
         Node::SameB(k) => (format!("{:?}", b::same(db, *k)), one(n), None, None),
+        Node::GenX(k) => (format!("{:?}", gen_x::same(db, *k)), one(n), None, None),
+        Node::GenY(k) => (format!("{:?}", gen_y::same(db, *k)), one(n), None, None),
         Node::InternedValue(_) | Node::InternedRef(_) => unreachable!(),
     }
 }
@@ -514,11 +516,11 @@ impl Exec {
             } else if self.tainted.contains(n) {
                 // consequence of a dangling reference already reported under C03
             } else {
-                let prop = if matches!(n, Node::SameA(_) | Node::SameB(_)) { "C04" } else { "C01" };
+                let prop = if matches!(n, Node::SameA(_) | Node::SameB(_) | Node::GenX(_) | Node::GenY(_)) { "C04" } else { "C01" };
                 self.violate(prop, "memo-ne-twin", n.func(), format!("{n:?} returned {got}, from-scratch {expected}"));
             }
         }
-        if matches!(n, Node::SameA(_) | Node::SameB(_)) {
+        if matches!(n, Node::SameA(_) | Node::SameB(_) | Node::GenX(_) | Node::GenY(_)) {
             self.stats.c04_pairs += 1;
         }
         if let Some(h) = handle {
